@@ -180,7 +180,7 @@ pub fn run(ctx: &mut Ctx) {
     }
     if !ctx.machinery_errors.is_empty() { return }
     // ---- enumeration, deviation-bounded: 0 cuts, 1 cut, 2 cuts (, 3 cuts) ----
-    let mut completed = [0u64; 4];
+    let mut completed = [0u64; 5];
     for s in &all {
         let expected = expected_of(&router, s);
         let n = s.bytes.len();
@@ -193,13 +193,16 @@ pub fn run(ctx: &mut Ctx) {
             if ctx.out_of_time() { break }
             for &b in &cand[i + 1..] {
                 check_schedule(ctx, &router, s, &expected, &[a, b]); completed[2] += 1; ctx.states += 1;
-                if !quick && n <= 200 { for &c in cand.iter().filter(|&&c| c > b) { check_schedule(ctx, &router, s, &expected, &[a, b, c]); completed[3] += 1; ctx.states += 1; } }
+                if !quick { for &c in cand.iter().filter(|&&c| c > b) { check_schedule(ctx, &router, s, &expected, &[a, b, c]); completed[3] += 1; ctx.states += 1;
+                    // four cuts on the short streams (every position is a candidate there)
+                    if n <= 100 { for &d in cand.iter().filter(|&&d| d > c) { check_schedule(ctx, &router, s, &expected, &[a, b, c, d]); completed[4] += 1; ctx.states += 1; } }
+                } }
             }
         }
     }
     for (i, c) in completed.iter().enumerate() { ctx.extra.insert(format!("sum_schedules_with_{i}_cuts"), json!(c)); }
     ctx.extra.insert("rule".into(), json!("case = (stream, set of cut positions); the next segment is delivered only when the session is Pending inside a read; non-trivial = at least one cut strictly inside a request, or two requests coalesced into one segment; collision = a cut strictly inside a request"));
-    ctx.extra.insert("bounds".into(), json!({"menu": MENU, "streams": all.len(), "cuts": if quick { "0,1 (all positions), 2 (candidate positions) on every stream" } else { "0,1 (all positions), 2 (candidate positions) on every stream; 3 on streams <= 200 bytes" },
+    ctx.extra.insert("bounds".into(), json!({"menu": MENU, "streams": all.len(), "cuts": if quick { "0,1 (all positions), 2 (candidate positions) on every stream" } else { "0,1 (all positions), 2 and 3 (candidate positions) on every stream, 4 on streams <= 100 bytes" },
         "candidate_positions": "all positions for streams <= 160 bytes; otherwise the first 48 bytes of each request, +-3 around the end of each head, +-2 around the 1 KiB buffer end, +-3 around each request boundary, every 97th body byte",
         "tcp_binding": if quick { "0- and 1-cut schedules of the 3 shortest single requests and 2 shortest pairs" } else { "0-, 1- and a 1/23 slice of 2-cut schedules of the 5 shortest single requests and 5 shortest pairs" }}));
     ctx.sample(|| json!({"stream": ["post-3"], "cuts": [70]}));
